@@ -42,24 +42,32 @@ def _loopy_key(tu):
     return LoopyKeyBuilder()(tu)
 
 
+_DW_TOKENS: dict = {}
+
+
 class Canon:
-    def __init__(self, dw_mode: str = "identity", dw_tokens=None):
+    def __init__(self, dw_mode: str = "identity", dw_tokens=None,
+                 scalar_types: bool = False):
         self.dw_mode = dw_mode
-        self.table: dict = {}       # descriptor text -> index
-        self.lines: list = []
+        # scalar_types: distinguish 2.0 from numpy.float64(2.0) (they compare
+        # and hash equal in Python, but a persistent key may tell them apart)
+        self.scalar_types = scalar_types
+        self.table: dict = {}       # content hash -> descriptor text
         self.by_id: dict = {}       # id(obj) -> (obj, ref)  (memo; keeps obj alive)
-        self.dw_tokens = dw_tokens if dw_tokens is not None else {}
+        # identity tokens must be the same for every Canon of this process
+        self.dw_tokens = dw_tokens if dw_tokens is not None else _DW_TOKENS
 
     # returns a short reference string
     def ref(self, v) -> str:
         if v is None or isinstance(v, (bool, str)):
             return repr(v)
+        st = f":{type(v).__name__}" if self.scalar_types else ""
         if isinstance(v, (int, np.integer)):
-            return f"int:{int(v)}"
+            return f"int:{int(v)}{st}"
         if isinstance(v, (float, np.floating)):
-            return f"float:{float(v)!r}"
+            return f"float:{float(v)!r}{st}"
         if isinstance(v, (complex, np.complexfloating)):
-            return f"complex:{complex(v)!r}"
+            return f"complex:{complex(v)!r}{st}"
         if isinstance(v, np.bool_):
             return f"npbool:{bool(v)}"
         if isinstance(v, np.dtype):
@@ -85,12 +93,13 @@ class Canon:
         return f"nd:{a.dtype.str}:{a.shape}:{h}"
 
     def _intern(self, text: str) -> str:
-        idx = self.table.get(text)
-        if idx is None:
-            idx = len(self.lines)
-            self.table[text] = idx
-            self.lines.append(text)
-        return f"#{idx}"
+        # content-addressed (Merkle style): a reference does not depend on the
+        # order in which the walk happened to reach the node, e.g. on the
+        # iteration order of a mapping
+        h = hashlib.sha256(text.encode()).hexdigest()[:16]
+        if h not in self.table:
+            self.table[h] = text
+        return f"#{h}"
 
     def _ref_compound(self, v) -> str:
         from pytato.array import DataWrapper
@@ -142,17 +151,20 @@ class Canon:
 
     def text(self, obj) -> str:
         root = self.ref(obj)
-        return "\n".join(f"#{i}: {ln}" for i, ln in enumerate(self.lines)) \
+        return "\n".join(f"#{h}: {self.table[h]}" for h in sorted(self.table)) \
             + f"\nroot: {root}\n"
 
 
-def canon_text(obj, dw_mode="identity", dw_tokens=None) -> str:
-    return Canon(dw_mode, dw_tokens).text(obj)
+def canon_text(obj, dw_mode="identity", dw_tokens=None,
+               scalar_types=False) -> str:
+    return Canon(dw_mode, dw_tokens, scalar_types).text(obj)
 
 
-def canon_key(obj, dw_mode="identity", dw_tokens=None) -> str:
-    return hashlib.sha256(
-        canon_text(obj, dw_mode, dw_tokens).encode()).hexdigest()[:24]
+def canon_key(obj, dw_mode="identity", dw_tokens=None,
+              scalar_types=False) -> str:
+    c = Canon(dw_mode, dw_tokens, scalar_types)
+    return c.ref(obj) if False else hashlib.sha256(
+        c.text(obj).encode()).hexdigest()[:24]
 
 
 # {{{ generic iteration
